@@ -1,88 +1,67 @@
 (** C01 — Ordered symbol tables behave as a sorted map on every operation history.
     Statements only; proofs live in C01/Proofs*.v.
 
-    [run cmp eqv i ops] are the outputs of implementation [i] (BST, AVL, red-black) of the model
-    C01/Model.v on the history [ops] (mutators and queries with arbitrary arguments) started from
-    the empty table; [spec_run] are the outputs of the strictly sorted association list of
-    C01/Spec.v.  [Ok] means: neither a panic nor fuel exhaustion. *)
-From Algo.C01 Require Import Model Spec ProofsRun ProofsRB Proofs.
+    [run cmp eqv i ops] are the outputs of implementation [i] (BST, AVL, left-leaning red-black) of
+    the model C01/Model.v on the history [ops] (mutators Put / Delete / DeleteMin / DeleteMax /
+    DeleteAll and queries, with arbitrary arguments) started from the empty table; [spec_run] are
+    the outputs of the strictly sorted association list of C01/Spec.v.  An output [Ok x] means:
+    the operation neither panicked (nil dereference) nor ran out of fuel.
+
+    [TotalOrder cmp] asks for a total preorder given by the sign of [cmp] (reflexive, sign
+    antisymmetric, transitive); Leibniz antisymmetry is not needed. *)
+From Algo.C01 Require Import Model Spec Proofs.
 From Coq Require Import Permutation.
 Open Scope Z_scope.
 
 (** The property at full strength: for every comparator that is a total (pre)order, every
-    implementation and every history whose queries are functions of the abstract map, all outputs
-    agree with the sorted association list and nothing panics or hangs. *)
+    implementation and every history whose queries are functions of the abstract map (Size,
+    IsEmpty, Get, Min, Max, Floor, Ceiling, Select, Rank, Range, RangeSize, All, Traverse in
+    ascending / descending order (also with early exit), Equal against a table built by another
+    history, AnyMatch, AllMatch, SelectMatch, PartitionMatch), all outputs — including the pair
+    returned by every Delete / DeleteMin / DeleteMax — agree with the sorted association list, and
+    nothing panics or hangs.  Absent keys, inverted ranges and out-of-range ranks are ordinary
+    arguments of the quantifier. *)
 Definition C01_full : Prop :=
   forall (K V : Type) (cmp : K -> K -> Z) (eqv : V -> V -> bool), TotalOrder cmp ->
   forall (i : impl) (ops : list (op K V)),
     forallb abstract_op ops = true ->
     run cmp eqv i ops = map Ok (spec_run cmp eqv ops).
 
-(** BST: the property at full strength — every history of Put / Delete / DeleteMin / DeleteMax /
-    DeleteAll and of all abstract queries (absent keys, inverted ranges, negative ranks included). *)
-Theorem C01_refines_bst :
-  forall (K V : Type) (cmp : K -> K -> Z) (eqv : V -> V -> bool), TotalOrder cmp ->
-  forall ops : list (op K V),
-    forallb abstract_op ops = true ->
-    run cmp eqv BST ops = map Ok (spec_run cmp eqv ops).
-Proof. intros K V cmp eqv TO ops. exact (bst_run_ok cmp eqv TO ops). Qed.
+Theorem C01_refines : C01_full.
+Proof. intros K V cmp eqv TO i ops. exact (run_ok_all cmp eqv TO i ops). Qed.
 
 (** FirstMatch is relational: the property does not fix which matching pair an abstract map
-    returns (the code returns the first in pre-order; the correspondence checks that choice). *)
-Theorem C01_firstmatch_bst :
+    returns (the code returns the first in pre-order; the correspondence checks that choice as a
+    fidelity observable). It returns a held pair satisfying the predicate iff one exists. *)
+Theorem C01_firstmatch :
   forall (K V : Type) (cmp : K -> K -> Z), TotalOrder cmp ->
-  forall (h : list (mut K V)) (p : K -> V -> bool),
-  exists t, build cmp BST h = Ok t /\
+  forall (i : impl) (h : list (mut K V)) (p : K -> V -> bool),
+  exists t, build cmp i h = Ok t /\
     match first_match p t with
     | Some e => In e (s_build cmp h) /\ holds p e = true
     | None => forall e, In e (s_build cmp h) -> holds p e = false
     end.
-Proof. intros K V cmp TO h p. exact (bst_firstmatch cmp TO h p). Qed.
+Proof. intros K V cmp TO i h p. exact (firstmatch_all cmp TO i h p). Qed.
 
-(** The six shape-dependent traversal orders enumerate exactly the entries of the abstract map. *)
-Theorem C01_traversal_bst :
+(** The shape-dependent traversal orders (VLR, VRL, LRV, RLV) enumerate exactly the entries of
+    the abstract map (the order itself is a fidelity observable). *)
+Theorem C01_traversal :
   forall (K V : Type) (cmp : K -> K -> Z), TotalOrder cmp ->
-  forall (h : list (mut K V)) (o : order), o <> OtherOrder ->
-  exists t, build cmp BST h = Ok t /\ Permutation (trav_list o t) (s_build cmp h).
-Proof. intros K V cmp TO h o. exact (bst_traversal cmp TO h o). Qed.
+  forall (i : impl) (h : list (mut K V)) (o : order), o <> OtherOrder ->
+  exists t, build cmp i h = Ok t /\ Permutation (trav_list o t) (s_build cmp h).
+Proof. intros K V cmp TO i h o. exact (traversal_all cmp TO i h o). Qed.
 
-(** AVL: the same statements at full strength (rotations included; no panic). *)
-Theorem C01_refines_avl :
-  forall (K V : Type) (cmp : K -> K -> Z) (eqv : V -> V -> bool), TotalOrder cmp ->
-  forall ops : list (op K V),
-    forallb abstract_op ops = true ->
-    run cmp eqv AVL ops = map Ok (spec_run cmp eqv ops).
-Proof. intros K V cmp eqv TO ops. exact (avl_run_ok cmp eqv TO ops). Qed.
-
-Theorem C01_firstmatch_avl :
+(** The abstract map stays strictly sorted (so it is a map: at most one entry per key). *)
+Theorem C01_spec_sorted :
   forall (K V : Type) (cmp : K -> K -> Z), TotalOrder cmp ->
-  forall (h : list (mut K V)) (p : K -> V -> bool),
-  exists t, build cmp AVL h = Ok t /\
-    match first_match p t with
-    | Some e => In e (s_build cmp h) /\ holds p e = true
-    | None => forall e, In e (s_build cmp h) -> holds p e = false
-    end.
-Proof. intros K V cmp TO h p. exact (avl_firstmatch cmp TO h p). Qed.
+  forall h : list (mut K V), sorted cmp (s_build cmp h).
+Proof. intros K V cmp TO h. apply (SpecFacts.s_build_from_sorted cmp TO h []). exact I. Qed.
 
-Theorem C01_traversal_avl :
-  forall (K V : Type) (cmp : K -> K -> Z), TotalOrder cmp ->
-  forall (h : list (mut K V)) (o : order), o <> OtherOrder ->
-  exists t, build cmp AVL h = Ok t /\ Permutation (trav_list o t) (s_build cmp h).
-Proof. intros K V cmp TO h o. exact (avl_traversal cmp TO h o). Qed.
-
-(** Red-black, PARTIAL: proved for histories whose mutators are Put and DeleteAll (including the
-    histories inside Equal); all abstract queries are covered.  What is missing with respect to
-    [C01_full] at [i = RB]: histories containing Delete / DeleteMin / DeleteMax (moveRedLeft /
-    moveRedRight / balance on the way up).  Those are carried by the correspondence (every run
-    compares the Go code with the model on exhaustive and random delete histories) and by the
-    invariant checker [rb_check] of C15 evaluated on the implementation's node dump. *)
-Theorem C01_refines_rb_partial :
-  forall (K V : Type) (cmp : K -> K -> Z) (eqv : V -> V -> bool), TotalOrder cmp ->
-  forall ops : list (op K V),
-    forallb abstract_op ops = true ->
-    forallb (op_allowed put_only) ops = true ->
-    run cmp eqv RB ops = map Ok (spec_run cmp eqv ops).
-Proof. intros K V cmp eqv TO ops. exact (rb_run_ok_put cmp eqv TO ops). Qed.
+(** The comparators the harness uses are instances of the hypothesis (non-vacuity of
+    [TotalOrder]): ascending, reverse, difference-valued, and a non-antisymmetric preorder. *)
+Theorem C01_comparators :
+  TotalOrder cmp_asc /\ TotalOrder cmp_desc /\ TotalOrder cmp_diff /\ TotalOrder cmp_half.
+Proof. exact (conj cmp_asc_total (conj cmp_desc_total (conj cmp_diff_total cmp_half_total))). Qed.
 
 (** Non-vacuity: a 7-key history with a double rotation (AVL), colour flips (red-black), a
     successor-replacing delete, absent keys, on the three implementations and two comparators. *)
@@ -101,10 +80,8 @@ Proof.
   destruct Hi as [<- | [<- | [<- | []]]]; vm_compute; repeat split; reflexivity.
 Qed.
 
-Print Assumptions C01_refines_bst.
-Print Assumptions C01_firstmatch_bst.
-Print Assumptions C01_traversal_bst.
-Print Assumptions C01_refines_avl.
-Print Assumptions C01_firstmatch_avl.
-Print Assumptions C01_traversal_avl.
-Print Assumptions C01_refines_rb_partial.
+Print Assumptions C01_refines.
+Print Assumptions C01_firstmatch.
+Print Assumptions C01_traversal.
+Print Assumptions C01_spec_sorted.
+Print Assumptions C01_comparators.
